@@ -48,9 +48,12 @@ def load_helper(variant):
 
 def sizespec():
   return st.one_of(
+      st.tuples(st.just('abs'), st.integers(0, 64)),
+      st.tuples(st.just('abs'), st.integers(0, 300)),
       st.tuples(st.just('abs'), st.integers(0, 300)),
       st.tuples(st.just('abs'), st.integers(0, 300)),
       st.tuples(st.just('abs'), st.integers(300, 6000)),
+      st.tuples(st.just('rem'), st.sampled_from(REM)),
       st.tuples(st.just('rem'), st.sampled_from(REM)),            # avail - k   (fits exactly / nearly)
       st.tuples(st.just('over'), st.sampled_from([1, 2, 8, 64, 1000])),   # avail + k   (cannot fit)
       st.tuples(st.just('frac'), st.integers(1, 7)),              # avail * j / 8
@@ -59,7 +62,8 @@ def sizespec():
 
 @st.composite
 def sequences(draw, allow_dispatch):
-  memory = draw(st.one_of(st.sampled_from([1500, 2048, 3000, 4096, 8000, 16384]), st.integers(1200, 50000)))
+  memory = draw(st.one_of(st.sampled_from([1500, 2048, 4096, 8000, 16384, 40000]), st.integers(1200, 50000),
+                          st.integers(4000, 50000)))
   nthread = draw(st.integers(1, 4)) if (allow_dispatch and draw(st.integers(0, 2)) > 0) else 0
   nops = draw(st.integers(4, 40))
   kinds = ['mark', 'mark', 'mark', 'free', 'free', 'byte', 'byte', 'byte', 'info', 'num', 'int', 'arena', 'arena']
@@ -347,7 +351,15 @@ class Machine:
     rc = h.c19_dispatch(m.ptr, d.ptr, ntask, nalloc, size.ctypes.data, align.ctypes.data, ptr.ctypes.data,
                         err.ctypes.data, th.ctypes.data, spin, min(ntask, nth), C.byref(r))
     if rc:
-      self.fail('mju_dispatch raised: %s' % lib.raw.vf_last_error().decode(errors='replace')[:300], 'dispatch-error')
+      msg = lib.raw.vf_last_error().decode(errors='replace')
+      avail0 = narena - pa0 - ps0
+      if 'stack overflow' in msg and FRAME_BYTES + 7 + self.slack > avail0 and \
+          (int(r.pstack), int(r.pbase), int(r.parena)) == (ps0, pb0, pa0) and not h.c19_threadlock(d.ptr):
+        # no room for mju_dispatch's own frame record: legitimate exhaustion, nothing may have changed
+        stats['fails'] += 1
+        labels.add('fail:dispatch-mark')
+        return False
+      self.fail('mju_dispatch raised: %s' % msg[:300], 'dispatch-error')
     if (int(r.pstack), int(r.pbase), int(r.parena)) != (ps0, pb0, pa0):
       self.fail('mju_dispatch returned with (pstack,pbase,parena)=(%d,%#x,%d), entered with (%d,%#x,%d)' % (
           r.pstack, r.pbase, r.parena, ps0, pb0, pa0), 'dispatch-restore')
@@ -487,12 +499,22 @@ def run_pipe(lib, h, variant, ck, case, fns):
         continue
       if name == 'mj_implicit' and int(m.opt.integrator) not in (E.mjINT_IMPLICIT, E.mjINT_IMPLICITFAST):
         continue    # documented precondition (raises "integrator must be implicit or implicitfast")
+      if name.startswith('mjd_') and int(m.opt.integrator) == E.mjINT_RK4:
+        continue    # documented: "RK4 integrator is not supported" by the finite-difference derivatives
       if len(args) != len(lib.sigs[name]['params']):
         ck.label('pipe:sig-mismatch:' + name)
         continue
       ps0, pb0 = int(d.pstack), int(d.pbase)
       asanproc.journal(dict(family='pipe', xml=gm.xml, seed=seed, frame=frame, call=name))
-      getattr(lib, name)(*args)
+      try:
+        getattr(lib, name)(*args)
+      except mj.MjError as e:
+        if name.startswith('mjd_') and 'not supported' in str(e):
+          ck.label('pipe:unsupported:' + name)     # documented precondition rejected up front
+          if (int(d.pstack), int(d.pbase)) != (ps0, pb0):
+            break
+          continue
+        raise
       ncalls += 1
       if (int(d.pstack), int(d.pbase)) != (ps0, pb0):
         raise Violation('%s returned with (pstack,pbase)=(%d,%#x), entered with (%d,%#x) [variant=%s]' % (
@@ -523,6 +545,14 @@ def run_pipe(lib, h, variant, ck, case, fns):
 # ------------------------------------------------------------------------------------------- worker entry
 
 def handler(job):
+  import time
+  t0 = time.time()
+  out = handler1(job)
+  out['extra']['wall_%s_%s_%d' % (job['family'], job['variant'], job['shard'])] = round(time.time() - t0, 1)
+  return out
+
+
+def handler1(job):
   variant = job['variant']
   lib = mj.load(variant)
   h = load_helper(variant)
